@@ -1,6 +1,6 @@
 """./check <id> quick|thorough | --replay <file>   — orchestrates one property check (DESIGN.md §6)."""
 import importlib, json, os, sys, time, traceback
-from . import common, gen_tie
+from . import common, gen_tie, gen_tie_c
 from .common import Ctx, Infra
 
 ASSUMPTIONS = [
@@ -31,6 +31,8 @@ def main(argv):
     try:
         audit = common.lean_audit(prop)
         tie = gen_tie.translate_and_build(prop)     # definitions regenerated from the source vs the model
+        tie_c = gen_tie_c.translate_and_build(prop)  # C kernels: clang AST -> Lean vs KernelMem / Pcg (C17, C12)
+        tie = {k: (tie[k] and tie_c[k]) if k == "ok" else tie[k] + tie_c[k] for k in tie}
         audit["ok"] = audit["ok"] and tie["ok"]
         audit["problems"] += tie["problems"]
         audit["theorems"] += tie["theorems"]
